@@ -1316,6 +1316,10 @@ async fn proxy_family(seed: u64) -> (Evidence, Vec<Violation>) {
 			if with_ct {
 				b = b.header("content-type", "application/json");
 			}
+			// a client may state the length of its (empty or not) body: that is no reason for another answer
+			if r.bool() {
+				b = b.header("content-length", body.len());
+			}
 			let req = b.body(http_body_util::Full::new(Bytes::copy_from_slice(body))).expect("request");
 			log.lock().unwrap().clear();
 			let reply = http_call(&mut svc, req).await;
@@ -1345,6 +1349,61 @@ async fn proxy_family(seed: u64) -> (Evidence, Vec<Violation>) {
 						));
 					}
 				}
+			}
+		}
+	}
+	(ev, violations)
+}
+
+/// Family: the response depends on the body bytes, not on how the Content-Length header is spelled. The same valid call is
+/// sent with one Content-Length header (reference), none, the header twice with the same value, and as the list `N, N`
+/// (both are valid spellings of one length; a proxy or an HTTP/2 peer may produce them).
+async fn content_length_spelling_family(seed: u64, n: usize) -> (Evidence, Vec<Violation>) {
+	let mut ev = Evidence::new("");
+	let mut violations = Vec::new();
+	let mut r = Rng::new(seed);
+	let log: Log = Arc::new(Mutex::new(Vec::new()));
+	let (stop_handle, _server_handle) = jsonrpsee_server::stop_channel();
+	let mut svc = jsonrpsee_server::Server::builder().to_service_builder().build(module(log.clone()), stop_handle);
+	for i in 0..n {
+		let nonce = format!("cl{seed:x}-{i}");
+		let method = *r.pick(&["e", "echo", "a", "echo_async", "fail"]);
+		let body = format!("{}{{\"jsonrpc\":\"2.0\",\"id\":{},\"method\":\"{method}\",\"params\":[\"{nonce}\",\"{}\"]}}", " ".repeat(r.usize(4)), r.below(1000), "x".repeat(r.usize(200))).into_bytes();
+		let mut seen: Vec<(&str, u16, Vec<u8>, Vec<(String, String)>)> = Vec::new();
+		for spelling in ["single", "absent", "repeated", "list"] {
+			let mut b = http::Request::builder().method("POST").uri("http://localhost/").header("host", "localhost").header("content-type", "application/json");
+			match spelling {
+				"single" => b = b.header("content-length", body.len()),
+				"repeated" => b = b.header("content-length", body.len()).header("content-length", body.len()),
+				"list" => b = b.header("content-length", format!("{}, {}", body.len(), body.len())),
+				_ => {}
+			}
+			let frames: Vec<Result<Frame<Bytes>, Infallible>> = if r.bool() {
+				vec![Ok(Frame::data(Bytes::from(body.clone())))]
+			} else {
+				let c = 1 + r.usize(body.len() - 1);
+				vec![Ok(Frame::data(Bytes::copy_from_slice(&body[..c]))), Ok(Frame::data(Bytes::copy_from_slice(&body[c..])))]
+			};
+			let req = b.body(StreamBody::new(futures_util::stream::iter(frames))).expect("request");
+			log.lock().unwrap().clear();
+			let reply = http_call(&mut svc, req).await;
+			let mut ran: Vec<(String, String)> = std::mem::take(&mut *log.lock().unwrap());
+			ran.sort();
+			ev.eval();
+			ev.count("content_length_spelling_requests", 1);
+			ev.count(&format!("content_length_spelling_{spelling}_status_{}", reply.status), 1);
+			seen.push((spelling, reply.status, reply.body, ran));
+		}
+		let reference = seen[0].clone();
+		for (spelling, status, rbody, ran) in &seen[1..] {
+			if (*status, rbody, ran) != (reference.1, &reference.2, &reference.3) {
+				violations.push(Violation::new(
+					format!("content-length-spelling-changes-answer/{spelling}"),
+					format!("same {} body bytes: one Content-Length header => {} {:?} handlers={}; Content-Length {spelling} => {} {:?} handlers={}", body.len(), reference.1, lossy(&reference.2), reference.3.len(), status, lossy(rbody), ran.len()),
+					json!({"family": "content-length-spelling", "seed": seed, "index": i, "body": lossy(&body), "spelling": spelling}),
+				));
+			} else if reference.1 == 200 {
+				ev.nontrivial(&("cl-spelling", seed, i, *spelling));
 			}
 		}
 	}
@@ -1502,6 +1561,15 @@ fn main() {
 		let seed = ctx.seed;
 		let reps = ctx.tier.pick(8u64, 200);
 		let res = run_parallel((0..reps).collect(), |_, i| block_on_virtual(proxy_family(Rng::fork(seed ^ 0x9e7, i).next_u64())));
+		for (e, v) in res {
+			ev.merge(e);
+			violations.extend(v);
+		}
+	}
+	{
+		let seed = ctx.seed;
+		let n = ctx.tier.pick(50usize, 2_500);
+		let res = run_parallel((0..16u64).collect(), |_, i| block_on_virtual(content_length_spelling_family(Rng::fork(seed ^ 0xc1e, i).next_u64(), n)));
 		for (e, v) in res {
 			ev.merge(e);
 			violations.extend(v);
